@@ -186,10 +186,14 @@ impl ZerokitMerkleTree for PmTree {
         values: I,
     ) -> Result<()> {
         let v = values.into_iter().collect::<Vec<_>>();
+        if v.is_empty() {
+            // nothing to write: the tree (and its next_index) is left as it is
+            return Ok(());
+        }
         self.tree
             .set_range(start, v.clone().into_iter())
             .map_err(|e| Report::msg(e.to_string()))?;
-        for i in start..v.len() {
+        for i in start..start + v.len() {
             self.cached_leaves_indices[i] = 1
         }
         Ok(())
